@@ -539,8 +539,10 @@ impl FixtureDatabase {
                     }
                 }
 
-                // Then add fixtures imported into the conftest
-                if self.file_cache.contains_key(&conftest_path) {
+                // Then add fixtures imported into the conftest. A closed or evicted conftest
+                // is no longer in the file cache but still on disk (same test as in
+                // find_closest_definition_with_filter).
+                if conftest_path.exists() || self.file_cache.contains_key(&conftest_path) {
                     let mut visited = HashSet::new();
                     let imported_fixtures =
                         self.get_imported_fixtures(&conftest_path, &mut visited);
